@@ -3,6 +3,6 @@
    sumbool, sumor; ascii -> char, string -> char list).  No Extract Constant of our own;
    N, Z, positive and nat stay the extracted Coq datatypes. *)
 Require Extraction ExtrOcamlBasic ExtrOcamlString.
-From GT Require Import Run.
+From GTS Require Import Main.
 Extraction Language OCaml.
 Extraction "model.ml" run_line_schema run_line_case.
